@@ -26,7 +26,7 @@ func (f *feedReader) Read(p []byte) (int, error) {
 type histState struct {
 	format string
 	m      map[int]refmt.Marshaller
-	mbuf   map[int]*bytes.Buffer
+	mbuf   map[int]*histWriter
 	u      map[int]refmt.Unmarshaller
 	ufeed  map[int]*feedReader
 	c      map[int]refmt.Cloner
@@ -48,7 +48,7 @@ func (h *histState) dopts() refmt.DecodeOptions {
 // hist <fmt> <op>;<op>;…   op = M|aid|tid|val   U|aid|tid|hex   C|aid|tid|val
 // Every op is run on a long-lived instance (one per kind and atlas) AND on a fresh one; both results are printed.
 func opHist(p []string) string {
-	h := &histState{format: p[0], m: map[int]refmt.Marshaller{}, mbuf: map[int]*bytes.Buffer{}, u: map[int]refmt.Unmarshaller{},
+	h := &histState{format: p[0], m: map[int]refmt.Marshaller{}, mbuf: map[int]*histWriter{}, u: map[int]refmt.Unmarshaller{},
 		ufeed: map[int]*feedReader{}, c: map[int]refmt.Cloner{}}
 	var outs []string
 	oracle := "ok"
@@ -67,15 +67,23 @@ func opHist(p []string) string {
 			src := reflect.New(t)
 			src.Elem().Set(rv)
 			if h.m[a.id] == nil {
-				h.mbuf[a.id] = &bytes.Buffer{}
+				h.mbuf[a.id] = &histWriter{}
 				h.m[a.id] = refmt.NewMarshallerAtlased(h.eopts(), h.mbuf[a.id], a.atl)
 			}
-			h.mbuf[a.id].Reset()
+			// optional 5th field: the writer fails at that Write call of this call only (the consumer walks away mid-run)
+			failAt := -1
+			if len(f) > 4 {
+				failAt, _ = strconv.Atoi(f[4])
+			}
+			h.mbuf[a.id].reset(failAt)
 			e, pn := safely(func() error { return h.m[a.id].Marshal(src.Interface()) })
-			reused = resStr(hexOrDash(h.mbuf[a.id].Bytes()), e, pn)
-			var fb []byte
-			e2, pn2 := safely(func() error { var e error; fb, e = refmt.MarshalAtlased(h.eopts(), src.Interface(), a.atl); return e })
-			fresh = resStr(hexOrDash(fb), e2, pn2)
+			reused = resStr(hexOrDash(h.mbuf[a.id].buf.Bytes()), e, pn)
+			fw := &histWriter{}
+			fw.reset(failAt)
+			e2, pn2 := safely(func() error {
+				return refmt.NewMarshallerAtlased(h.eopts(), fw, a.atl).Marshal(src.Interface())
+			})
+			fresh = resStr(hexOrDash(fw.buf.Bytes()), e2, pn2)
 		case "U":
 			data, _ := parseHexOrDash(f[3])
 			if h.u[a.id] == nil {
@@ -118,6 +126,28 @@ func opHist(p []string) string {
 		}
 	}
 	return "I=" + strings.Join(outs, ";") + " O=" + oracle
+}
+
+// histWriter: a buffer whose k-th Write call (counted per marshal call) fails, if k >= 0
+type histWriter struct {
+	buf    bytes.Buffer
+	failAt int
+	calls  int
+}
+
+func (w *histWriter) reset(failAt int) {
+	w.buf.Reset()
+	w.failAt = failAt
+	w.calls = 0
+}
+
+func (w *histWriter) Write(p []byte) (int, error) {
+	i := w.calls
+	w.calls++
+	if w.failAt >= 0 && i == w.failAt {
+		return 0, errInjected
+	}
+	return w.buf.Write(p)
 }
 
 func resStr(ok string, err error, panicked bool) string {
